@@ -18,7 +18,7 @@ func init() {
 			"Scheduler.lastError and the other lock-protected run state are written with their mutex held everywhere (C08.state-lock, shared)",
 			"Scheduler.Status returns each outcome constant exactly under the oracle's conditions (canceled∧¬allSucceeded / ¬started / running / lastError!=nil / else success) (C04.status-table)",
 			"isSucceed returns true only after all nodes were seen and skips only finished/skipped nodes (C04.succeed-table)",
-			"every store of failed into a step's status - by the worker or by the scheduling thread itself - is paired with a write of lastError before the worker moves on / the loop launches, iterates or returns (C04.error-pairing)",
+			"every store of failed into a step's status - by the worker or by the scheduling thread itself - is paired with a write of lastError before the worker moves on / the loop launches, iterates or returns; the same for a step the scheduling thread labels canceled outside the cancel flag (C04.error-pairing)",
 			"onSuccess/onFailure/onCancel are appended only under the matching Status value, onExit unconditionally and last; handlers are run by one loop over that slice, one runHandlerNode call per element (C04.handler-table)",
 			"the Status call that selects handlers is dominated by wg.Wait(), which is outside the scheduling loop (C04.after-wait)",
 			"a handler failure cannot change the run's outcome: no possibly non-nil value is written to lastError after the handlers were selected (C04.handler-no-lasterror)",
@@ -41,7 +41,8 @@ func runC04(e *Env) {
 	c04ErrorPairing(e, s)
 	c04Handlers(e, s)
 	c05CancelMark(e, s, "C04.cancel-mark")
-	c05SignalFanout(e, s) // `canceled iff stopped`: every accepted stop sets the flag the outcome is read from
+	c05CancelFlagMonotone(e, "C04.cancel-flag-monotone") // `canceled iff stopped`: the flag the outcome is read from is never lowered
+	c05SignalFanout(e, s)                                // `canceled iff stopped`: every accepted stop sets the flag the outcome is read from
 	c04PrecondFirst(e, s)
 	c04HandlerStatus(e, s)
 	cRunToCompletion(e, s, "C04.outcome-after-completion") // the outcome and the handlers are chosen from final states only
@@ -479,10 +480,27 @@ func c04ErrorPairing(e *Env, s *Sched) {
 			}
 			lastErrStores = append(lastErrStores, ev.Site)
 		}
+		if w != s.Worker && s.IsReady != nil && (w == s.IsReady || e.inlinedSet(s.IsReady, nil)[w]) {
+			continue // the readiness function's marks follow an upstream failure that was recorded (C02.mark-table)
+		}
 		for _, ev := range s.statusEvents(w) {
 			k, ok := s.constOf(ev)
-			if !ok || k != s.val("NodeStatusError") {
+			// the scheduling thread labelling a step failed - or canceled, which the outcome
+			// only shows when the cancel flag is up
+			if !ok || (k != s.val("NodeStatusError") && !(w != s.Worker && k == s.val("NodeStatusCancel"))) {
 				continue
+			}
+			viaReady := false
+			for _, v := range ev.Via {
+				if s.IsReady != nil && (v == s.IsReady || e.inlinedSet(s.IsReady, nil)[v]) {
+					viaReady = true
+				}
+			}
+			if viaReady {
+				continue
+			}
+			if k == s.val("NodeStatusCancel") && HasVal(e.DCS(ev.Site), isCanceledCall, true) {
+				continue // under the cancel flag the run is reported canceled
 			}
 			if w == s.Worker {
 				if !sameNode(ev.Root, s.WorkerNode) {
@@ -525,8 +543,12 @@ func c04ErrorPairing(e *Env, s *Sched) {
 					}})
 				paired = bad == nil
 			}
-			r.Check(paired, who+": status:=Error paired with lastError ["+shortSite(e, ev)+"]", e.InstrPos(ev.Site),
-				"a step is labelled failed on a path that does not record the error in lastError: the run would be reported finished although a step failed")
+			label := "Error"
+			if k == s.val("NodeStatusCancel") {
+				label = "Cancel"
+			}
+			r.Check(paired, who+": status:="+label+" paired with lastError ["+shortSite(e, ev)+"]", e.InstrPos(ev.Site),
+				"a step is labelled failed / canceled on a path that neither records an error in lastError nor runs under the cancel flag: the run would be reported finished (and the success handler run) although a step did not succeed")
 		}
 	}
 }
